@@ -15,7 +15,7 @@ CLAIMS = {
          "model table instead of hashbrown; sequences <= 4 operations; load / load_owned / directory loads through a Source are out of reach"),
  "C03": ("model_checking", TECH3, "ErrorKind::or for all kind pairs and folds over <= 3 extensions; Error id/reason chain; FileContent::with_cow over all three representations; From conversions; the extension loop of load_from_source for n <= 3 (quick) / 8 (thorough) extensions and every outcome per extension (E2: first usable extension in order, otherwise default_value with an error of maximal rank)",
          "Kani/CBMC; model crates; std io::Error / Box<dyn Error> values forgotten (mem::forget) in harnesses; in the E2 kernel the load_with_ext closure is the environment; shipped loaders out of scope"),
- "C06": ("model_checking", TECH2, "entry-level reload-id/watcher/global-flag bookkeeping for all sequences of <= 5 operations; update-list precision on the dependency graph kernel (thorough); watcher/increment interleavings and reloaded_global pollers against one reload (E2); one reloader pass reloads every affected asset exactly once, in order (E2 run_update kernel); Local/Static mode switch of the reloader: which entry point runs a pass in which mode and on which cache, the pass at enhance_hot_reloading consumes the pending set (E2 mode-switch kernel, run_update inlined)",
+ "C06": ("model_checking", TECH2, "entry-level reload-id/watcher/global-flag bookkeeping for all sequences of <= 5 operations; update-list precision on the dependency graph kernel (thorough); watcher/increment interleavings and reloaded_global pollers against one reload (E2); one reloader pass reloads every affected asset exactly once, in order (E2 run_update kernel); Local/Static mode switch of the reloader: which entry point runs a pass in which mode and on which cache, the pass at enhance_hot_reloading consumes the pending set (E2 mode-switch kernel, run_update inlined); the reloader thread calls an update entry point only as the handler of a message it received, for every script of <= 4 (quick) / 6 (thorough) channel interactions (E2 thread-loop kernel)",
          "Kani/CBMC; model crates; single-location atomics are coherent so SC interleavings are exact"),
  "C07": ("model_checking", TECH3, "lock discipline of read guards (all guard shapes) and of UntypedEntry::write against a ghost-state lock model: value/id/flag change only inside the write section; writer blocks under a live guard; hot_reload blocks until answered; reloader side: while the reloader is in Local mode no entry point but the handling of a hot_reload request runs an update pass (handle_events / update_if_static idle), and the request is answered only after update_if_local returned, for every script of <= 4 (quick) / 6 (thorough) channel interactions (E2 mode-switch and thread-loop kernels)",
          "parking_lot model: reader/writer exclusion trusted; std-lock build not covered"),
